@@ -94,7 +94,16 @@ func checkEncoding(x *Ctx, sc *chainScen, reqs []*ChainReq) {
 		ce := res.W.H["Content-Encoding"]
 		if r.AddCE {
 			// the route function added its own value (a layered coding it applied itself): judged is what is left
-			for i := len(ce) - 1; i >= 0; i-- {
+			nbr := 0
+			for _, v := range ce {
+				if v == "br" {
+					nbr++
+				}
+			}
+			if r.PreCE == "br" {
+				nbr-- // that one was there on arrival; the handler's value may also have come too late to be sent
+			}
+			for i := len(ce) - 1; i >= 0 && nbr > 0; i-- {
 				if ce[i] == "br" {
 					ce = append(append([]string{}, ce[:i]...), ce[i+1:]...)
 					x.Count("reach:handler-added-its-own-content-encoding")
